@@ -91,7 +91,7 @@ def check_once(m, rng, out, PAIR, MC, MC3, TWO):
     if np.abs(ih['Dbeg'] - it['stage0']['D']).max() > 1e-5 or np.abs(ih['a'] - it['stage1']['a']).max() > 1e-5 or np.abs(ih['c'] - it['stage1']['c']).max() > 1e-5:      # tolerances of the inner iterations
         C.push(out, dict(what='steady-state distribution / policies differ between the backward-function block and the stage block', input=dict(kind='pair', pair='het-stage'), signature=dict(op='internals', pair='het-stage')))
     shocks = [{'r': 0.002 * 0.8 ** np.arange(T)}, {'sd_e': 0.01 * 0.5 ** np.arange(T), 'transfer': np.r_[0, 0.01, np.zeros(T - 2)]}, {'shift': 0.003 * 0.7 ** np.arange(T), 'risk': 0.01 * 0.6 ** np.arange(T)}]
-    n += pair_checks('het-stage', m.pair_het, ssh, m.pair_stage, sst, ['r', 'atw', 'shift', 'risk', 'sd_e', 'rho_e', 'beta', 'eis'], ['A', 'C', 'UC', 'AINC'], T, out, 3e-3, shocks, sstol=2e-6, nltol=1e-6)     # the two blocks stop their backward iterations on different variables
+    n += pair_checks('het-stage', m.pair_het, ssh, m.pair_stage, sst, ['r', 'atw', 'shift', 'risk', 'sd_e', 'rho_e', 'beta', 'eis'], ['A', 'C', 'UC', 'AINC', 'VPU'], T, out, 3e-3, shocks, sstol=2e-6, nltol=1e-6)     # the two blocks stop their backward iterations on different variables
     mc = MC
     ssm, ssk = m.multi.steady_state(mc), m.kron.steady_state(mc)
     Dm, Dk = ssm.internals[m.multi.name]['D'], ssk.internals[m.kron.name]['D']
